@@ -293,7 +293,16 @@ namespace pika::threads::detail {
 
             using execution::thread_schedule_hint_mode;
             using namespace pika::debug::detail;
-            switch (data.schedulehint.mode)
+            // A thread hint that does not name a worker of this scheduler (e.g. -1 from an unset
+            // last worker thread number) is treated like no hint, as the other schedulers do.
+            auto hint_mode = data.schedulehint.mode;
+            if (hint_mode == thread_schedule_hint_mode::thread &&
+                (data.schedulehint.hint < 0 ||
+                    static_cast<std::size_t>(data.schedulehint.hint) >= num_workers_))
+            {
+                hint_mode = thread_schedule_hint_mode::none;
+            }
+            switch (hint_mode)
             {
             case execution::thread_schedule_hint_mode::none:
             {
@@ -681,7 +690,15 @@ namespace pika::threads::detail {
 
             using execution::thread_schedule_hint_mode;
 
-            switch (schedulehint.mode)
+            // A thread hint that does not name a worker of this scheduler (e.g. -1 from an unset
+            // last worker thread number) is treated like no hint, as the other schedulers do.
+            auto hint_mode = schedulehint.mode;
+            if (hint_mode == thread_schedule_hint_mode::thread &&
+                (schedulehint.hint < 0 || static_cast<std::size_t>(schedulehint.hint) >= num_workers_))
+            {
+                hint_mode = thread_schedule_hint_mode::none;
+            }
+            switch (hint_mode)
             {
             case execution::thread_schedule_hint_mode::none:
             {
